@@ -186,11 +186,11 @@ func logAnomalies(in input, plog [][]int, wlog [][]wev) (out []string) {
 		}
 		for _, d := range batch {
 			for _, line := range linesOf(d.Msg) {
-				m, _, err := ll.LexLine([]byte(line), "")
+				m, _, err := ll.LexLine([]byte(line), in.Namespace)
 				if err != nil || m == nil {
 					continue
 				}
-				m.Source = gostatsd.Source(d.IP)
+				stampSource(m, d.IP, in.IgnoreHost)
 				want[[2]int{gostatsd.Bucket(m.Name, m.FormatTagsKey(), in.Shards), b}] = true
 				m.Done()
 			}
